@@ -1,6 +1,7 @@
 //! A free software ISO Prolog system.
 #![recursion_limit = "4112"]
 #![deny(missing_docs)]
+#![cfg_attr(feature = "verif", allow(missing_docs))]
 
 #[macro_use]
 extern crate static_assertions;
@@ -41,6 +42,8 @@ pub(crate) mod read;
 mod repl_helper;
 mod targets;
 pub(crate) mod types;
+#[cfg(feature = "verif")]
+pub mod verif;
 
 // Re-exports
 pub use machine::Machine;
